@@ -342,6 +342,8 @@ func (w *World) Do(act string) string {
 		w.srvCancel()
 	case "flow":
 		w.P.SetFlow(f[1] == "1")
+	case "lazy":
+		w.P.SetLazyClose(f[1] == "1")
 	case "ack":
 		w.end(f[1]).Ack()
 	case "del":
